@@ -60,7 +60,7 @@ package jsonschema
 //@ pred wfS(rs *Resolved, s *Schema) = s != nil && infoOK(rs, s, rs.resolvedInfos[s]) && childrenIn(rs, s)
 
 //@ pred wfRS(rs *Resolved) = rs != nil && isold(rs) && inRS(rs, rs.root) \
-//@   && (forall s *Schema :: isold(s) && has(rs.resolvedInfos, s) ==> wfS(rs, s))
+//@   && (forall s *Schema {rs.resolvedInfos[s]} :: isold(s) && has(rs.resolvedInfos, s) ==> wfS(rs, s))
 
 // ---------------------------------------------------------------------------
 // util.go
@@ -109,6 +109,10 @@ package jsonschema
 //@ pred annsOwned(a *annotations) = new(a) && newOrNil(a.evaluatedIndexes) && newOrNil(a.evaluatedProperties) && a.endIndex >= 0
 //@ pred freshOrNil(m map[string]bool) = m == nil || fresh(m)
 //@ pred freshOrNilI(m map[int]bool) = m == nil || fresh(m)
+//@ pred annsSame(a *annotations) = a.allItems == old(a.allItems) && a.endIndex == old(a.endIndex) && a.allProperties == old(a.allProperties) \
+//@   && a.evaluatedIndexes == old(a.evaluatedIndexes) && a.evaluatedProperties == old(a.evaluatedProperties) \
+//@   && (forall k int :: has(a.evaluatedIndexes, k) == old(has(a.evaluatedIndexes, k))) \
+//@   && (forall k string :: has(a.evaluatedProperties, k) == old(has(a.evaluatedProperties, k)))
 //@ pred annsLocal(a *annotations) = annsOwned(a) && fresh(a) && freshOrNilI(a.evaluatedIndexes) && freshOrNil(a.evaluatedProperties)
 
 //@ contract (*annotations).noteIndex(a, i)
@@ -186,19 +190,27 @@ package jsonschema
 //@   requires inRS(rs, schema)
 //@   requires shaped(instance)
 //@   requires newOrNil(stk0)
-//@   requires stackOK: forall i int :: 0 <= i && i < len(stk0) ==> inRS(rs, stk0[i])
+//@   requires stackOK: forall i int {stk0[i]} :: 0 <= i && i < len(stk0) ==> inRS(rs, stk0[i])
 //@   requires annsOK: callerAnns != nil ==> annsOwned(callerAnns)
 //@   modifies st.stack, callerAnns.allItems, callerAnns.endIndex, callerAnns.evaluatedIndexes, callerAnns.allProperties, callerAnns.evaluatedProperties, callerAnns.evaluatedIndexes.entries, callerAnns.evaluatedProperties.entries
 //@   ensures stacklen: len(st.stack) == len(stk0)
-//@   ensures stackelems: newOrNil(st.stack) && (forall i int :: 0 <= i && i < len(stk0) ==> st.stack[i] == old(stk0[i]))
+//@   ensures stackelems: newOrNil(st.stack) && (forall i int {st.stack[i]} :: 0 <= i && i < len(stk0) ==> st.stack[i] == old(stk0[i]))
 //@   ensures annsOK: callerAnns != nil ==> annsOwned(callerAnns)
 //@   ensures mapsI: callerAnns != nil ==> (callerAnns.evaluatedIndexes == old(callerAnns.evaluatedIndexes) || fresh(callerAnns.evaluatedIndexes))
 //@   ensures mapsP: callerAnns != nil ==> (callerAnns.evaluatedProperties == old(callerAnns.evaluatedProperties) || fresh(callerAnns.evaluatedProperties))
 //@   loopinv rsframe: st.rs == rs
-//@   loopinv caller: callerAnns != nil ==> annsOwned(callerAnns) && callerAnns.evaluatedIndexes == old(callerAnns.evaluatedIndexes) && callerAnns.evaluatedProperties == old(callerAnns.evaluatedProperties)
+//@   ensures[C07] noleak1: err != nil && callerAnns != nil ==> callerAnns.allItems == old(callerAnns.allItems) && callerAnns.endIndex == old(callerAnns.endIndex) && callerAnns.allProperties == old(callerAnns.allProperties)
+//@   ensures[C07] noleak2: err != nil && callerAnns != nil ==> callerAnns.evaluatedIndexes == old(callerAnns.evaluatedIndexes) && callerAnns.evaluatedProperties == old(callerAnns.evaluatedProperties)
+//@   ensures[C07] noleak3: err != nil && callerAnns != nil ==> newOrNil(callerAnns.evaluatedIndexes) && newOrNil(old(callerAnns.evaluatedIndexes)) && (forall k int :: has(callerAnns.evaluatedIndexes, k) == old(has(callerAnns.evaluatedIndexes, k)))
+//@   ensures[C07] noleak4: err != nil && callerAnns != nil ==> newOrNil(callerAnns.evaluatedProperties) && newOrNil(old(callerAnns.evaluatedProperties)) && (forall k string :: has(callerAnns.evaluatedProperties, k) == old(has(callerAnns.evaluatedProperties, k)))
+//@   loopinv c1: callerAnns != nil ==> annsOwned(callerAnns)
+//@   loopinv c2: callerAnns != nil ==> callerAnns.allItems == old(callerAnns.allItems) && callerAnns.endIndex == old(callerAnns.endIndex) && callerAnns.allProperties == old(callerAnns.allProperties)
+//@   loopinv c3: callerAnns != nil ==> callerAnns.evaluatedIndexes == old(callerAnns.evaluatedIndexes) && callerAnns.evaluatedProperties == old(callerAnns.evaluatedProperties)
+//@   loopinv c4: callerAnns != nil ==> newOrNil(callerAnns.evaluatedIndexes) && newOrNil(old(callerAnns.evaluatedIndexes)) && (forall k int :: has(callerAnns.evaluatedIndexes, k) == old(has(callerAnns.evaluatedIndexes, k)))
+//@   loopinv c5: callerAnns != nil ==> newOrNil(callerAnns.evaluatedProperties) && newOrNil(old(callerAnns.evaluatedProperties)) && (forall k string :: has(callerAnns.evaluatedProperties, k) == old(has(callerAnns.evaluatedProperties, k)))
 //@   loopinv shaped: shaped(instance)
 //@   loopinv stacklen: len(st.stack) == len(stk0) + 1
-//@   loopinv stackelems: new(st.stack) && (forall i int :: 0 <= i && i < len(stk0) ==> st.stack[i] == old(stk0[i])) && st.stack[len(stk0)] == schema
+//@   loopinv stackelems: new(st.stack) && (forall i int {st.stack[i]} :: 0 <= i && i < len(stk0) ==> st.stack[i] == old(stk0[i])) && st.stack[len(stk0)] == schema
 //@   loopinv anns: annsLocal(anns)
 
 //@ contract property(v, name)
